@@ -1417,7 +1417,9 @@ fn gen_c01(thorough: bool, rng: &mut Rng, emit: &mut dyn FnMut(&str, Vec<String>
 }
 
 fn gen_c06(thorough: bool, rng: &mut Rng, emit: &mut dyn FnMut(&str, Vec<String>)) {
-    let codes: [u64; 8] = [
+    // the last four: the range HTTP/3 sets aside for WebTransport application error codes
+    // (0x52e4a40fa8db + n + n/0x1e) — stream codes of this API are carried verbatim there too
+    let codes: [u64; 13] = [
         0,
         63,
         64,
@@ -1426,6 +1428,11 @@ fn gen_c06(thorough: bool, rng: &mut Rng, emit: &mut dyn FnMut(&str, Vec<String>
         (1 << 30) - 1,
         1 << 30,
         (1 << 62) - 1,
+        u32::MAX as u64 + 1,
+        0x52e4_a40f_a8da,
+        0x52e4_a40f_a8db,
+        0x52e4_a40f_acc3,
+        0x52e5_ac98_3162,
     ];
     for role in ROLES {
         for rt in RTS {
